@@ -68,6 +68,30 @@ def run(chk):
     f = repo.func(NMT, "NmtBase.on_command", "C11.R2")
     ff = ff_for(chk, f, "C11.R2")
     stores = attr_stores(f.node, "_state")
+    # receiving a command is passive: no method reachable from on_command (through any subclass override) transmits
+    nmt_classes = [c for c in mod.classes.values() if any(k.name == "NmtBase" for k in repo.mro(c))]
+    sends_ = []
+    seen_m, todo = set(), [("NmtBase", f)]
+    while todo:
+        cname_, cur = todo.pop()
+        for c in ast.walk(cur.node):
+            if not isinstance(c, ast.Call):
+                continue
+            d = dotted(c.func) or ""
+            if d.endswith(".send_message") or d.endswith(".send_periodic"):
+                sends_.append((cname_, cur, c))
+            if isinstance(c.func, ast.Attribute) and dotted(c.func.value) == "self":
+                for k in nmt_classes:
+                    m_ = k.methods.get(c.func.attr)
+                    if m_ is not None and (k.name, c.func.attr) not in seen_m and c.func.attr not in ("update_heartbeat",):
+                        seen_m.add((k.name, c.func.attr))
+                        todo.append((k.name, m_))
+    for cname_, cur, c in sends_:
+        chk.bad("R2", f"{NMT}:NmtBase.on_command | receiving a command sends nothing", cur.loc(c),
+                f"on_command reaches {cname_}.{cur.name}(), which transmits `{src(c)[:60]}`: a node that merely sees a command on the bus repeats it (master) "
+                f"or answers with a boot-up message (slave)")
+    if sends_:
+        return
     chk.floor("R2", len(stores), 1, "stores of _state in NmtBase.on_command")
     unpack = None
     for n in own_nodes(f.node):
